@@ -173,6 +173,9 @@ func (e *Engine) strConst(lit string) Term {
 	if lit == "" {
 		return Term{"str_empty", SStr}
 	}
+	if lit == "\n" {
+		return Term{"str_nl", SStr}
+	}
 	if s, ok := e.strConsts[lit]; ok {
 		return Term{s, SStr}
 	}
